@@ -376,7 +376,7 @@ class RVASpec(Spec):
             BitPaddedInt.to_str(v, bits=8, width=-1, minwidth=2)
             for v in values]
         max_bytes = max([len(v) for v in byte_values])
-        byte_values = [v.ljust(max_bytes, b"\x00") for v in byte_values]
+        byte_values = [v.rjust(max_bytes, b"\x00") for v in byte_values]
 
         bits = max_bytes * 8
         buffer_.extend(spec.write(config, frame, bits))
